@@ -20,6 +20,14 @@ func NewFileHandler(file *File) (handler *FileHandler) {
 	}
 }
 
+// newFileWriteHandler create new FileHandler instance to write a file.
+// The previous file content is removed (under the file data lock taken by the handler).
+func newFileWriteHandler(file *File) (handler *FileHandler) {
+	handler = NewFileHandler(file)
+	file.data = []byte{}
+	return handler
+}
+
 // Write write data to stream
 func (h *FileHandler) Write(p []byte) (n int, err error) {
 	h.file.time = time.Now()
